@@ -60,6 +60,10 @@ CHECKS = {
    text="differential monitor between the real `grass` binary built from the tree and the library it wraps (worker with StdFs/StdLogger in the same working directory): exit status, stdout/output-file bytes, stderr (rendered error in the selected Unicode/ASCII mode, warnings) for corpus, mutated and diagnostic/import-heavy inputs x all 2^5 flag combinations x {file, --stdin} x {stdout, output file}, plus injected I/O faults (missing file, directory as input, non-UTF-8 file or stdin, unwritable output) that must exit non-zero with empty stdout; thorough uses the repository's release profile (LTO, panic=abort) and adds valgrind memcheck on a sample",
    note="the library oracle is the same code the binary links; process spawning bounds the volume (~6k invocations per quick run)",
    technique="runtime monitoring: process-boundary differential oracle (exit code, fd 1/2, output file) + valgrind memcheck in thorough tier"),
+ "C19": dict(engine="vw+vp",
+   text="(a) bounds monitor on every error location reported for hundreds of thousands of failing inputs (corpus error! items, mutations, soup, ill-typed builtin calls, multi-byte text around re-lexed selectors/media queries, broken files reached through @import/@use/@forward; three syntaxes; Unicode and ASCII rendering): named file is the entry or a file that was read, begin <= end, lines/columns inside the text the harness supplied, Display starts with `Error: <message>` and never panics, ASCII mode stays ASCII; (b) offline checker of the Logger event log of generated programs against the reference interpreter's trace including file name and 1-based line of every executed @debug/@warn (lines known from the printers), in the entry file and in imported/used files, SCSS and indented; (c) quiet => empty trace; (d) with a custom Logger no byte may appear on fd 1/2 (captured around every compilation)",
+   note="identical (location, message) warnings are collapsed on both sides; IoError/FromUtf8Error have no location in the public API and are only checked for renderability",
+   technique="runtime monitoring: invariant checks over recorded error objects + offline trace checker of Logger event logs against a reference model; fd 1/2 capture"),
 }
 
 ALL = ["C%02d" % i for i in range(1, 21)]
